@@ -18,7 +18,7 @@ MANIFEST = dict(
     category="proof",
     text="partial. Coq theorems (props/C09.v, 37 obligations) on the executable model of check_type_relation (both modes), of the registry and of the narrowing primitives, which mirrors /repo (fix: commits for F7, F12, F25, F25b, F25p, F26, F29, F55, F56, F87 included). PROVED for every registry: compat_sound_partial (is_compatible => containment of values on the cycle-free fragment incl. partial, callable and process types), compat_refl (outright), compat_trans_partial (transitivity on the cycle-free fragment: check_rel computes exactly a transitive reference relation), overlap_complete_partial, overlap_complete_callable_partial and overlap_complete_partial_arms (a `false` of types_overlap proves disjointness; cycle-free ints / bins / refs / resources / tuples / unions, then with callable and process types, then with partial types too - all arms of check_type_relation - over values whose tuples carry each label at most once; without that premise on the values refuted by a witness), intersect_keeps_partial and complement_keeps_partial (intersect_types / compute_complement never drop a value that can occur, for first-order cycle-free operands, the registry after the call extending the one before; complement additionally needs a well-formed registry), intersect_keeps_callable_partial and intersect_keeps_process_partial (the same for two callable / two process operands with first-order cycle-free components - the exact meet built since the F25b repair - with memberships read in the registry after the call), intersect_keeps_partial_pattern and complement_keeps_partial_pattern (narrowing a first-order cycle-free type by a partial pattern type with first-order field types: both the matching and the non-matching branch keep their values; the intersect side over values with distinct labels), filter_keeps_partial (filter_variants_by_field keeps every value whose tested field passed the test), registry monotonicity. REFUTED by vm_compute witnesses replayed on the real code: the findings as found with the repaired answers pinned (F7, F12, F25, F25p, F29, F87) and the open findings F23 (compat_sound on recursive types with shared open subterms) and F24 (complement on recursive unions). NOT proved (validated only): every statement on the RECURSIVE fragment, intersect_keeps / complement_keeps with partial or callable / process types nested inside tuples and unions (a partial pattern at top level and two callable / process operands are proved). Every run ties the model to the code by differential execution on generated type graphs (returned ids, booleans, full registry dumps after intersect / complement / filter / union_type_ids; targeted templates) and judges the REAL functions' answers against the value semantics of Sem.v by exhaustive value enumeration to depth 3 (soundness, overlap completeness, intersect / complement / filter keep values, reflexivity / transitivity).",
     design_ref="§5 C09",
-    note="Trusted: Coq kernel, extraction, OCaml driver, Rust harness, generator. The oracle's enumeration is over a small atom universe (one int, one bin, one ref; registered tuple shapes; registered closed callable/process types as function/process values); a dangling Cycle in a RESULT of narrowing is read as `any`, as the code base reads it. Known findings F23-F26 are matched by structural signature only; a failure in the cycle-free first-order fragment is always a violation.",
+    note="Trusted: Coq kernel, extraction, OCaml driver, Rust harness, generator. The oracle's enumeration is over a small atom universe (one int, one bin, one ref; registered tuple shapes; registered closed callable/process types as function/process values); a dangling Cycle in a RESULT of narrowing is read as `any`, as the code base reads it. Known findings F23-F26 are matched by structural signature only; a failure in the cycle-free first-order fragment is always a violation. A validated repair candidate for F23 exists (hooks/fix_F23.NEEDS_MODEL_FLIP.patch: unedited suite green, oracle failures of F23 vanish on the patched code); it is not applied because the Rel.v model and its proofs must follow first.",
     technique="Coq proof on an executable model + model/code correspondence + semantic oracle by bounded exhaustive enumeration",
 )
 
